@@ -97,6 +97,8 @@ def judgeCounts (n : Option Nat) (impl : String) : String × String :=
           else if i ≠ n then "viol:C03:header"
           else if w ≠ n then "viol:C04:not-own-answer"
           else if r ≠ n then "viol:C03:rcode"
+          -- responses that came later than the request deadline (6 s) plus slack; absent = not measured
+          else if (kvNat it "late").getD 0 ≠ 0 then "viol:C03:late-response"
           else "ok"
         | _, _, _, _, _ => "unparsed"
     (out, v)
